@@ -828,6 +828,9 @@ def typed_ops(r, root, classes):
       ops.append(('items.reverse %s' % p, lambda items=items: items.reverse()))
       ops.append(('items.sort %s' % p, lambda items=items: items.sort(key=lambda v: -(v.sym_getattr('y') if isinstance(v.sym_getattr('y'), int) else 0))))
       ops.append(('items[1:]= %s' % p, lambda items=items: items.__setitem__(slice(1, None), [new_leaf()])))
+      ops.append(('items[::2]= %s' % p, lambda items=items: items.__setitem__(slice(None, None, 2), [new_leaf() for _ in range((len(items) + 1) // 2)])))
+      ops.append(('del items[:1] %s' % p, lambda items=items: items.__delitem__(slice(None, 1))))
+      ops.append(('del items[::2] %s' % p, lambda items=items: items.__delitem__(slice(None, None, 2))))
     free = m.sym_getattr('free')
     ops.append(('free= %s' % p, lambda m=m: m.rebind(free=r.choice([None, P.Dict(a=1, b=P.Dict(c=1)), P.List([P.oneof([1, 2]), 3])]))))
     if isinstance(free, dict):
@@ -928,6 +931,63 @@ def typed_case(ctx, seed, nsteps, report=True):
   for sig, what in hits[:1]:
     ctx.hit(sig, what, dict(typed_seed=seed, steps=nsteps, what='harness.props.c09.typed_case(None, seed, steps, report=False)'))
   return done
+
+# ---- the notification flag itself: nested scopes restore the enclosing value, the flag is per thread (direct oracle) ------------------------------------
+def scope_checks(ctx):
+  import threading
+  P = D.pg()
+  n = 0
+  for outer in (False, True):
+    for inner in (False, True):
+      log = []
+      d = P.Dict(a=0, l=P.List([1], onchange_callback=lambda u: log.append('l')), onchange_callback=lambda u: log.append('d'))
+      def ev(f):
+        del log[:]; f(); return list(log)
+      with P.notify_on_change(outer):
+        with P.notify_on_change(inner):
+          got_inner = ev(lambda: d.l.append(2))
+        got_outer = ev(lambda: d.rebind(a=d.a + 1))
+        got_skip = ev(lambda: d.rebind(a=d.a + 1, skip_notification=True))
+        got_force = ev(lambda: d.rebind(a=d.a + 1, skip_notification=False))
+      got_after = ev(lambda: d.l.pop())
+      n += 5
+      want = dict(inner=['l', 'd'] if inner else [], outer=['d'] if outer else [], skip=[], force=['d'], after=['l', 'd'])
+      got = dict(inner=got_inner, outer=got_outer, skip=got_skip, force=got_force, after=got_after)
+      for k in want:
+        if got[k] != want[k]:
+          ctx.hit('C09/silent/scope-nesting/%s' % k, 'with notify_on_change(%s): with notify_on_change(%s): the %s mutation delivered %s, expected %s' % (
+              outer, inner, k, got[k], want[k]), dict(scope_check=True, outer=outer, inner=inner, which=k))
+  # the flag is thread-scoped: a scope entered by another thread does not silence this one, and the other way round
+  log = []
+  d1 = P.Dict(a=0, onchange_callback=lambda u: log.append('main'))
+  d2 = P.Dict(a=0, onchange_callback=lambda u: log.append('worker'))
+  inside, release, done = threading.Event(), threading.Event(), threading.Event()
+  seen = {}
+  def worker():
+    try:
+      with P.notify_on_change(False):
+        inside.set(); release.wait(10)
+        d2.a = 1            # silent: the worker's own scope
+      d2.a = 2              # notified
+    finally:
+      done.set()
+  t = threading.Thread(target=worker, daemon=True); t.start()
+  if inside.wait(10):
+    d1.a = 1                # the worker sits inside notify_on_change(False): this thread is not concerned
+    seen['main_while_worker_silenced'] = list(log)
+    with P.notify_on_change(False):
+      release.set(); done.wait(10)
+      seen['after_worker'] = list(log)
+  t.join(10)
+  n += 2
+  if seen.get('main_while_worker_silenced') != ['main']:
+    ctx.hit('C09/silent/thread-scope/leaks-into-other-thread', 'a notify_on_change(False) scope entered by another thread silenced (or duplicated) this thread: log %s' % seen.get('main_while_worker_silenced'),
+            dict(scope_check=True, which='thread'))
+  if seen.get('after_worker') != ['main', 'worker']:
+    ctx.hit('C09/silent/thread-scope/worker', 'worker thread: expected no event inside its own disabled scope and one after it, whatever the main thread\'s scope: log %s' % seen.get('after_worker'),
+            dict(scope_check=True, which='thread'))
+  ctx.extra['scope_checks'] = n
+  return n
 
 # ---- the check ---------------------------------------------------------------------------------------------------------------------------
 def simple_key(k):
@@ -1039,6 +1099,7 @@ def run(ctx):
       diffs[id(c)] = describe_diff(c, a, b)
   bad = ctx.compare('SymCoreEvents.run vs pg.Dict / pg.List / pg.Object (outcome, snapshot, event log, memoised facts held, observed facts after every step)',
                     cases, impl_outs, model_outs, describe=lambda c: diffs.get(id(c)))
+  scope_checks(ctx)
   # typed trees (required / default fields, MISSING_VALUE, pg.oneof): direct oracles only
   t1 = time.time()
   tsteps, tcases, twant = 0, 0, ctx.scale(60, 2500)
@@ -1077,6 +1138,14 @@ def run(ctx):
 def replay(ctx, rp):
   from harness.lib import tr as trlib
   c = rp['case']
+  if isinstance(c, dict) and c.get('scope_check'):
+    class _C:
+      def __init__(self): self.h = []; self.extra = {}
+      def hit(self, sig, what, case): self.h.append((sig, what))
+    cc = _C(); scope_checks(cc)
+    for h in cc.h:
+      print('  still fails:', h[0], '|', h[1])
+    return not cc.h
   if isinstance(c, dict) and 'typed_seed' in c:
     hits = typed_case(None, c['typed_seed'], c.get('steps', 12), report=False)
     for h in hits:
